@@ -67,7 +67,13 @@ def variants_conelp(cvxopt, PR, pr, rng, max_variants, focus=None):
     cand.append(('conelp callable-kktsolver', dict(kktsolver=custom_kkt), False, False))
     rng.shuffle(cand)
     if focus == 's-blocks': cand = [x for x in cand if 'junk' in x[0]] + [x for x in cand if 'junk' not in x[0]]
-    for tag, kw, sparse, junk in cand[:max_variants]:
+    cand = cand[:max_variants]
+    if 'x' in w and 'z' in w:
+        # one-sided starting points (always run): the solver completes the missing half itself and must move it into the cone
+        ps = dict(primalstart={'x': matrix(w['x'], (pr.n, 1), 'd'), 's': matrix(w['s'], (pr.N, 1), 'd')})
+        ds = dict(dualstart={'y': matrix(w['y'], (pr.p, 1), 'd'), 'z': matrix(w['z'], (pr.N, 1), 'd')})
+        cand.append(('conelp primalstart-only', ps, False, False) if rng.random() < 0.5 else ('conelp dualstart-only', ds, False, False))
+    for tag, kw, sparse, junk in cand:
         o = opts(rng)
         c2, G2, h2, A2, b2, _ = PR.to_cvx(cvxopt, pr, sparse=sparse, junk=(random.Random(rng.random()) if junk else None),
                                           junk_scale=(rng.choice([1.0, 1e3, 1e5]) if focus == 's-blocks' else 1.0))
